@@ -1791,10 +1791,12 @@ def remove_silence_from_performed_part(ppart):
                 c_idxs = np.where(cta[:, 0] >= start_time)[0]
 
                 c_times = cta[c_idxs, 0]
+                # controls keep their own values (several controls can share
+                # a time); only the value in force at the start is looked up
+                c_values = cta[c_idxs, 1]
                 if start_time not in c_times and np.any(cta[:, 0] < start_time):
                     c_times = np.r_[start_time, c_times]
-
-                c_values = cinterp(c_times)
+                    c_values = np.r_[cinterp(start_time), c_values]
 
                 for t, v in zip(c_times, c_values):
                     shifted_controls.append(
